@@ -219,7 +219,9 @@ class SimpleGP:
     ):
         recorders: list[SearchRecorder] = []
         if csv_extra_fields:
-            csv_extra_fields2 = {cb: lambda t, i, p: csv_extra_fields[cb](i.get_phenotype()) for cb in csv_extra_fields}
+            csv_extra_fields2 = {
+                cb: lambda t, i, p, cb=cb: csv_extra_fields[cb](i.get_phenotype()) for cb in csv_extra_fields
+            }
         else:
             csv_extra_fields2 = None
         if csv_output:
